@@ -522,3 +522,16 @@ for _pid, (_t, _n, _tech) in LEVELS.items():
     PROPS[_pid]["level_text"] = _t + " Nothing is claimed outside the stated bounds."
     PROPS[_pid]["level_note"] = _n
     PROPS[_pid]["technique_short"] = _tech
+
+
+# oracle self-checks (vcheck/brute.py): recurrences vs exhaustive search over all executable streams
+PROPS["C05"]["selfcheck"] = ["binomial"]
+PROPS["C13"]["selfcheck"] = ["binomial"]
+PROPS["C19"]["selfcheck"] = ["binomial"]
+PROPS["C06"]["selfcheck"] = ["mixed"]
+PROPS["C07"]["selfcheck"] = ["hrevolve"]
+for _pid in ("C05", "C06", "C07", "C13", "C19"):
+    PROPS[_pid]["trusted"] = list(PROPS[_pid].get("trusted", [])) + [
+        "for n <= 5 (quick) / 7 (thorough) the recurrences behind the oracle are compared at start-up with the optimum "
+        "over all executable streams found by exhaustive search (vcheck/brute.py); beyond that the published theorems "
+        "are trusted"]
